@@ -21,6 +21,9 @@ var fileLog *fileLogger = nil // Current file logger instance if any
 var logLevel slog.LevelVar
 
 func OpenLogFileRead() (*os.File, error) {
+	if fileLog == nil {
+		return nil, ErrNoLogFile // File logging is disabled (logging.file is empty) or not initialized
+	}
 	assertedPath, err := assertedpath.TryAssert(fileLog.Path())
 	if err != nil {
 		return nil, err
